@@ -348,7 +348,7 @@ package dmap
 //@   ensures #every_previous_owner_asked [C06] internal: owner_lookups == old(owner_lookups) + len(owners) - 1
 //@   loop 0 invariant #asked: -1 <= i && i <= len(owners) - 2 && owner_lookups == old(owner_lookups) + (len(owners) - 2 - i) && len(versions) >= 1 && fresh(versions) && off(versions) == 0 &&
 //@                forall k int :: 0 <= k && k < len(versions) ==> versions[k] != nil && versions[k].host != nil
-//@   loop 0 invariant #temporaries: onlyfresh(dm.engine.la)
+//@   loop 0 invariant #temporaries: onlyfresh(every(dm.engine.la))
 //@   loop 0 decreases i + 1
 //@   modifies owner_lookups, every(dm.engine.la)
 
